@@ -366,3 +366,7 @@ func TestC16(t *testing.T) {
 		Gen:  gen, Run: run,
 	})
 }
+
+func FuzzC16(f *testing.F) {
+	pbt.Fuzz(f, pbt.Prop[Case]{ID: "C16", Name: "fuzz", Rule: "native coverage-guided fuzzing (go test -fuzz) of structure sequences through reused protocol objects: the fuzzer's bytes are rapid's random stream", Gen: gen, Run: run})
+}
